@@ -395,6 +395,8 @@ PROPS["C14"] = dict(
           "unreachable remote nodes. Non-trivial = the destination set contains a remote node. Distinct = distinct case."),
     assumptions=["unreachable = the transport's Call returns an error without invoking the RPC", "QoS 0 publishes carry no acknowledgement to judge"],
     runs=[
+        # a destination that stalls for seconds and then refuses is a failed destination (package c05)
+        dict(name="hang", pkg="c05", run="TestHangingRemote", timeout=400),
         dict(name="regress", pkg="c14", run="TestRegress", timeout=300),
         dict(name="random", pkg="c14", run="TestRandom", checks=dict(quick=800, thorough=6000), shards=16, timeout=dict(quick=400, thorough=2400), shrinktime="90s"),
     ],
